@@ -340,6 +340,151 @@ theorem C12_pool_zero (s : DState) (pl : Pool) (r : Nat → Rat) (hr : ∀ u, 0 
   · rw [h] at hd; cases hd
   · rw [h v hv] at hi; cases hi
 
+
+/-! ### Group selectors of mixing pools: the destination / source group is the one the user specified -/
+
+/-- `MixingPool.get_uids`: `None` → all active agents, a callable is called with the sim, explicit uids are used as given. -/
+theorem C12_get_uids_as_modelled :
+    Gen.poolGetUids = [("none", "auids"), ("callable", "call"), ("uids", "same")] := by decide
+
+/-- `MixingPool.step` resolves `src_uids` from `pars.src` and `dst_uids` from `pars.dst`. -/
+theorem C12_pool_group_pars_as_modelled :
+    Gen.poolGroupPars = [("src_uids", "src"), ("dst_uids", "dst")] := by decide
+
+/-- `MixingPool.remove_uids` sheds the dead from both parameters. -/
+theorem C12_pool_remove_keys_as_modelled : "src" ∈ Gen.poolRemoveKeys ∧ "dst" ∈ Gen.poolRemoveKeys := by decide
+
+/-- `MixingPools.init_pre` builds pool (i, j) from source group i, destination group j and `contacts[i, j]`. -/
+theorem C12_pools_wiring_as_modelled :
+    Gen.poolsWiring = [("contacts", "src-index,dst-index"), ("dst", "dst"), ("src", "src")] := by decide
+
+/-- the recompute branch of `AgeGroup.__call__` stores both the uids and the step they were computed on -/
+theorem C12_agegroup_stores_as_modelled : Gen.ageGroupStores = ["ti_cache", "uids"] := by decide
+
+/-- a new `AgeGroup` holds a cache stamp that is no step of any sim -/
+theorem C12_agegroup_init : Gen.ageGroupInitTiCache < 0 := by decide
+
+/-- **Membership.** The uids an age group computes are exactly the active agents whose age lies in `[low, high)`. -/
+theorem C12_agegroup_members (low : Rat) (high : Option Rat) (p : People) (u : Nat) :
+    u ∈ members low high p ↔ u ∈ p.auids ∧ low ≤ p.age u ∧ ∀ h, high = some h → p.age u < h := mem_members
+
+/-- **No cache.** An `AgeGroup(do_cache=False)` returns the current membership on EVERY call: whatever was computed
+    before, at whichever step, however the population changed in between (also within one step). -/
+theorem C12_agegroup_nocache_fresh (g : AgeGroup) (ti : Int) (p : People) (h : g.doCache = false) :
+    (g.call ti p).2 = members g.low g.high p := by
+  unfold AgeGroup.call
+  rw [h, gen_recompute_nocache]
+  rfl
+
+/-- a newly constructed group (any bounds, either cache setting) satisfies the invariant -/
+theorem C12_agegroup_new_inv (P : Int → People) (low : Rat) (high : Option Rat) (dc : Bool) :
+    AgeGroup.Inv P { low := low, high := high, doCache := dc } := Or.inl C12_agegroup_init
+
+/-- **One call.** If the population is a function of the step (`P ti`), a call at step `ti ≥ 0` returns the membership
+    of that step and re-establishes the invariant — for either cache setting. -/
+theorem C12_agegroup_fresh_call (P : Int → People) (g : AgeGroup) (ti : Int) (hi : AgeGroup.Inv P g) (ht : 0 ≤ ti) :
+    (g.call ti (P ti)).2 = members g.low g.high (P ti) ∧ AgeGroup.Inv P (g.call ti (P ti)).1 := by
+  by_cases hr : Gen.ageGroupRecompute g.doCache g.tiCache ti g.uids.isNone = true
+  · unfold AgeGroup.call
+    simp only [hr, ↓reduceIte, true_and]
+    exact Or.inr rfl
+  · have htc : g.tiCache = ti := by
+      by_contra hne
+      exact hr (gen_recompute_stale _ _ hne)
+    unfold AgeGroup.call
+    simp only [hr, Bool.false_eq_true, ↓reduceIte]
+    rcases hi with hneg | hc
+    · omega
+    · refine ⟨?_, Or.inr hc⟩
+      rw [hc, htc]; rfl
+
+/-- **All histories.** Whatever sequence of steps an `AgeGroup` object is called at (any length, repeated calls within
+    a step, either cache setting), every call returns the membership of the population of that step. -/
+theorem C12_agegroup_fresh (P : Int → People) : ∀ (tis : List Int) (g : AgeGroup), AgeGroup.Inv P g →
+    (∀ t ∈ tis, 0 ≤ t) → g.calls P tis = tis.map (fun t => members g.low g.high (P t))
+  | [], _, _, _ => rfl
+  | ti :: tis, g, hi, ht => by
+    obtain ⟨h1, h2⟩ := C12_agegroup_fresh_call P g ti hi (ht ti (by simp))
+    have ih := C12_agegroup_fresh P tis (g.call ti (P ti)).1 h2 (fun t h => ht t (by simp [h]))
+    simp only [AgeGroup.calls, List.map_cons, h1, ih, call_low, call_high]
+
+/-- The hypothesis "the population is a function of the step" is needed for a caching group: if ages change between two
+    calls within one step the second call returns the stale membership (a `do_cache=False` group does not, see above). -/
+theorem C12_agegroup_same_step_cache_witness :
+    ∃ (g : AgeGroup) (p p' : People), g.doCache = true ∧ ((g.call 0 p).1.call 0 p').2 ≠ members g.low g.high p' :=
+  ⟨{ low := 0, high := some 15 }, ⟨[0, 1], fun _ => 10⟩, ⟨[0, 1], fun _ => 20⟩, by decide, by decide +kernel⟩
+
+/-- **Resolution = specification.** `get_uids` returns the group the parameter denotes on the current population. -/
+theorem C12_group_resolve_spec (P : Int → People) (ti : Int) (g : Group) (hf : g.Fresh P ti) (ht : 0 ≤ ti) :
+    (g.resolve ti (P ti)).2 = g.spec (P ti) := by
+  cases g with
+  | all => rfl
+  | age a => exact (C12_agegroup_fresh_call P a ti hf ht).1
+  | fn f => rfl
+  | explicit l =>
+    simp only [Group.resolve, Group.spec]
+    exact (List.filter_eq_self.mpr (fun u hu => by simpa using hf u hu)).symm
+
+/-- resolving keeps a group fresh for further calls in the same or a later step -/
+theorem C12_group_resolve_fresh (P : Int → People) (ti : Int) (g : Group) (hf : g.Fresh P ti) (ht : 0 ≤ ti) :
+    (g.resolve ti (P ti)).1.Fresh P ti := by
+  cases g with
+  | all => trivial
+  | age a => exact (C12_agegroup_fresh_call P a ti hf ht).2
+  | fn f => trivial
+  | explicit l => exact hf
+
+/-- **Explicit groups shed the dead.** After `remove_uids(dead)` no removed agent is returned, and nobody is added. -/
+theorem C12_explicit_group_sheds_dead (l dead : List Nat) (ti : Int) (p : People) {u : Nat}
+    (h : u ∈ (((Group.explicit l).remove dead).resolve ti p).2) : u ∈ l ∧ u ∉ dead := by
+  simpa [Group.remove, Group.resolve] using h
+
+/-- … and stays fresh: if every member was active and the active set lost exactly the removed agents. -/
+theorem C12_explicit_group_stays_fresh (P : Int → People) (ti ti' : Int) (l dead : List Nat)
+    (hf : (Group.explicit l).Fresh P ti) (hp : ∀ u, u ∈ (P ti).auids → u ∉ dead → u ∈ (P ti').auids) :
+    ((Group.explicit l).remove dead).Fresh P ti' := by
+  intro u hu
+  simp only [List.mem_filter, Bool.not_eq_eq_eq_not, Bool.not_true, List.contains_eq_mem, decide_eq_false_iff_not] at hu
+  exact hp u (hf u hu.1) hu.2
+
+/-- **Pool targets lie in the SPECIFIED destination group.** For any group parameters (all / age band with either cache
+    setting / user function / explicit uids), a new case of the pool step at `ti` belongs to the group the `dst` parameter
+    denotes on the population of that step, was susceptible with non-zero relative susceptibility, and some member of
+    the group the `src` parameter denotes is infectious with non-zero relative transmissibility. -/
+theorem C12_pool_target_in_specified_group {s : DState} {pg : PoolG} {P : Int → People} {ti : Int} {r : Nat → Rat}
+    {u : Nat} (hs : pg.src.Fresh P ti) (hd : pg.dst.Fresh P ti) (ht : 0 ≤ ti) (hr : 0 ≤ r u)
+    (h : u ∈ (poolStepG s pg ti (P ti) r).2) :
+    u ∈ pg.dst.spec (P ti) ∧ s.susceptible u = true ∧ s.relSus u ≠ 0 ∧
+    ∃ v ∈ pg.src.spec (P ti), s.infectious v = true ∧ s.relTrans v ≠ 0 := by
+  unfold poolStepG at h
+  obtain ⟨hdst, hsu, hrs, _, _, v, hv, hvi, hvt⟩ := C12_pool_admissible hr h
+  simp only at hdst hv
+  rw [C12_group_resolve_spec P ti _ hd ht] at hdst
+  rw [C12_group_resolve_spec P ti _ hs ht] at hv
+  exact ⟨hdst, hsu, hrs, v, hv, hvi, hvt⟩
+
+/-- Corollary for an age band as destination: the new case is an ACTIVE agent whose age at that step is in `[low, high)`. -/
+theorem C12_pool_agegroup_target {s : DState} {pg : PoolG} {P : Int → People} {ti : Int} {r : Nat → Rat} {u : Nat}
+    {g : AgeGroup} (hg : pg.dst = .age g) (hs : pg.src.Fresh P ti) (hd : AgeGroup.Inv P g) (ht : 0 ≤ ti) (hr : 0 ≤ r u)
+    (h : u ∈ (poolStepG s pg ti (P ti) r).2) :
+    u ∈ (P ti).auids ∧ g.low ≤ (P ti).age u ∧ ∀ hi, g.high = some hi → (P ti).age u < hi := by
+  have hd' : pg.dst.Fresh P ti := by rw [hg]; exact hd
+  have := (C12_pool_target_in_specified_group hs hd' ht hr h).1
+  rw [hg] at this
+  exact mem_members.mp this
+
+/-- With `do_cache=False` no assumption on the history is needed at all: whatever the group object did before and
+    however the population `p` came about, the new cases of the step are active members of the band in `p`. -/
+theorem C12_pool_nocache_agegroup_target {s : DState} {pg : PoolG} {p : People} {ti : Int} {r : Nat → Rat} {u : Nat}
+    {g : AgeGroup} (hg : pg.dst = .age g) (hc : g.doCache = false) (hr : 0 ≤ r u)
+    (h : u ∈ (poolStepG s pg ti p r).2) :
+    u ∈ p.auids ∧ g.low ≤ p.age u ∧ ∀ hi, g.high = some hi → p.age u < hi := by
+  unfold poolStepG at h
+  have hdst := (C12_pool_admissible hr h).1
+  simp only [hg, Group.resolve] at hdst
+  rw [C12_agegroup_nocache_fresh g ti p hc] at hdst
+  exact mem_members.mp hdst
+
 /-! ### `validate_beta` -/
 
 /-- A scalar beta is applied to both directions of every network. -/
@@ -563,5 +708,29 @@ def exAge : Nat → Rat := fun u => if u = 2 then -1/4 else 30
 example : congenitalCases exAge (infect exState (exNets (1/2))) = [⟨2, 0, 0⟩] ∧
     prognosisCases exAge (infect exState (exNets (1/2))) = [⟨3, 1, 0⟩] ∧
     stepLog 2001 exAge exState (exNets (1/2)) = [⟨1, 3, 2001⟩] := by decide +kernel
+
+/-- an ageing population with a death and a birth: agents 0..3 aged 13, 14, 30, 60 at step 0, one year per step; agent 3
+    is removed and agent 4 born before step 2 -/
+def exPeople (ti : Int) : People :=
+  { auids := if ti < 2 then [0, 1, 2, 3] else [0, 1, 2, 4]
+    age := fun u => if u = 4 then 0 else (if u = 0 then 13 else if u = 1 then 14 else if u = 2 then 30 else 60) + (ti : Rat) }
+
+/-- children `[0, 15)` over the steps 0, 1, 1, 2: agent 1 leaves the band at step 1, agent 0 at step 2 when agent 4 joins;
+    the same for a caching and a non-caching group (the hypotheses of `C12_agegroup_fresh` are met: new group, steps ≥ 0) -/
+example : (({ low := 0, high := some 15 } : AgeGroup).calls exPeople [0, 1, 1, 2] = [[0, 1], [0], [0], [4]]) ∧
+    (({ low := 0, high := some 15, doCache := false } : AgeGroup).calls exPeople [0, 1, 1, 2] = [[0, 1], [0], [0], [4]]) ∧
+    (({ low := 15, high := none } : AgeGroup).calls exPeople [0, 2] = [[2, 3], [0, 1, 2]]) := by decide +kernel
+
+/-- adults → children pool at step 2 (after a step-0 call filled the caches): the infectious adult 2 infects the newborn 4;
+    agent 0, now 15, is no longer a target although it was in the band when the group was first computed -/
+def exPoolG : PoolG := { src := .age { low := 15, high := none }, dst := .age { low := 0, high := some 15 }, beta := 1/2,
+                         contacts := fun _ => 2 }
+def exStateG : DState := { susceptible := fun u => u ≠ 2, infectious := fun u => u = 2, relSus := fun _ => 1, relTrans := fun _ => 3 }
+
+example : (poolStepG exStateG (poolStepG exStateG exPoolG 0 (exPeople 0) (fun _ => 9/10)).1 2 (exPeople 2) (fun _ => 9/10)).2 = [4] ∧
+    (poolStepG exStateG exPoolG 0 (exPeople 0) (fun _ => 9/10)).2 = [0, 1] := by decide +kernel
+
+/-- explicit uid groups: removing the dead agent 3 -/
+example : (((Group.explicit [1, 3, 2]).remove [3]).resolve 2 (exPeople 2)).2 = [1, 2] := by decide +kernel
 
 end StarsimModel.C12
